@@ -195,7 +195,8 @@ pub fn foreign_error(m: &str) -> BoxError {
     let explicit = m.strip_suffix(')').and_then(|x| x.rsplit_once('(')).and_then(|(_, n)| n.parse::<usize>().ok());
     match explicit.unwrap_or((crate::model::crypto::fnv64(m.as_bytes()) % 8) as usize) % 8 {
         0 => Box::new(ForeignError(m.to_string())),
-        1 => Box::new(std::io::Error::new(std::io::ErrorKind::ConnectionRefused, m.to_string())),
+        // a bare io::Error of any kind ("transient" ones included: Interrupted, TimedOut, WouldBlock)
+        1 => Box::new(std::io::Error::new(IO_KINDS[(crate::model::crypto::fnv64(m.as_bytes()) / 8 % IO_KINDS.len() as u64) as usize], m.to_string())),
         2 => Box::new(scratchstack_aws_signature::KeyTooLongError),
         3 => Box::new(std::fmt::Error),
         4 => BoxError::from(m.to_string()),
